@@ -423,6 +423,16 @@ var MergeAtoms = []WorldAtom{
 		ss[1].addType("Prefs", "", "locale: String")
 		return ss
 	}, false},
+	{"shared-interface-implements-node", func(ss []*SvcSpec) []*SvcSpec {
+		// an interface which itself implements Node, declared (with its implementing type) by two services with fields of their own
+		ss[0].addType("Res", "interface Node", "id: ID!", "label: String")
+		ss[0].addType("ResA", "Node & Res", "label: String")
+		ss[0].Query = append(ss[0].Query, "resA0: ResA")
+		ss[1].addType("Res", "interface Node", "id: ID!", "size: Int")
+		ss[1].addType("ResA", "Node & Res", "size: Int")
+		ss[1].Query = append(ss[1].Query, "resA1: Res")
+		return ss
+	}, false},
 	{"plain-type-disjoint-fields-third-service", func(ss []*SvcSpec) []*SvcSpec {
 		ss[0].addType("Opts", "", "a: String")
 		ss[0].Query = append(ss[0].Query, "opts0: Opts")
